@@ -12,6 +12,7 @@ package main
 
 import (
 	"fmt"
+	"os"
 	"strings"
 	"sync"
 
@@ -357,7 +358,22 @@ func rowsrestRSSSeq(c *Ctx, ops []rowsrestRSSOp, expect string) {
 		if sawExpected {
 			c.Note("rowsrest-rss-gen:synthetic-symbol-read-back")
 		} else {
-			c.Note("rowsrest-rss-gen:synthetic-symbol-NOT-read-back")
+			if os.Getenv("ROWSREST_DEBUG") != "" {
+				fmt.Fprintln(os.Stderr, "NOT-READ-BACK", expect, "c06rows rss pair 0 0 "+bitsStr(ops[0].bs))
+			}
+			lq, rq := 0, 0
+			for _, op := range ops {
+				if !op.reset {
+					for lq < len(op.bs) && !op.bs[lq] {
+						lq++
+					}
+					for rq < len(op.bs) && !op.bs[len(op.bs)-1-rq] {
+						rq++
+					}
+					break
+				}
+			}
+			c.Note(fmt.Sprintf("rowsrest-rss-gen:synthetic-symbol-NOT-read-back:leftwhite=%d:rightwhite=%d:len=%d:%s", lq, rq, len(ops[0].bs), expect))
 		}
 	}
 }
@@ -519,6 +535,17 @@ func rowsrestRSS(c *Ctx) {
 			rowsrestRSSLayers(c, r, pool[r.Intn(len(pool))].bs)
 		}
 	})
+	// the generator's symbols (widths by inverting the library's getRSSvalue) against the reference encoder written from the
+	// standard (Lean, Gzx/Ref/RSS14.lean): same 46 element widths for every value
+	for i := 0; i < c.Pick(400, 20000); i++ {
+		v := rowsrestRSSValue(c.Rng)
+		w := rowsrestSymbolWidths(v)
+		out := "none"
+		if w != nil {
+			out = "ok " + ints(w)
+		}
+		c.Cmp("rowsrest-rss-ref", fmt.Sprintf("c06rows rss refenc %d", v), out)
+	}
 	// read-back of synthetic symbols (generator sanity, and the one end-to-end value check): the same row three times
 	for i := 0; i < c.Pick(150, 3000); i++ {
 		r := c.Rng
